@@ -268,7 +268,11 @@ class kLeastAbsErrors(pathmodel.AbstractPathModelDAG):
             if (self.subpath_constraints_coverage == 1.0 and self.subpath_constraints_coverage_length is None) \
                 or self.subpath_constraints_coverage_length == 1:
                 for constraint in self.subpath_constraints:
-                    self.optimization_options["trusted_edges_for_safety"].update(constraint)
+                    # (under full *length* coverage an edge of length 0 need not lie on the covering path)
+                    self.optimization_options["trusted_edges_for_safety"].update(
+                        (u, v) for (u, v) in constraint
+                        if self.subpath_constraints_coverage_length is None or not self.G.has_edge(u, v) or self.G[u][v].get(self.length_attr, 1) > 0
+                    )
 
         # Call the constructor of the parent class AbstractPathModelDAG
         super().__init__(
